@@ -152,15 +152,16 @@ func mkMixed(id, method, tok string) member {
 type srvConfig struct {
 	// basectx (racing scenarios only): ServerOptions.NewContext hands out a context derived from one base
 	// context that the scenario may end, with a cause of its own, at any time
-	basectx   bool
-	deadlines bool // ServerOptions.NewContext gives every request context a deadline of 5 s (scripted, monitors only)
-	rpclog    bool // ServerOptions.RPCLog is set (a logger that only checks what it is given)
-	closeErr  bool // the channel's Close returns an error
-	K         int
-	push      bool
-	builtin   bool
-	unblock   bool
-	methods   []string
+	basectx    bool
+	deadlines  bool // ServerOptions.NewContext gives every request context a deadline of 5 s (scripted, monitors only)
+	rpclog     bool // ServerOptions.RPCLog is set (a logger that only checks what it is given)
+	closeErr   bool // the channel's Close returns an error
+	timeoutErr bool // transport failures report Timeout()/Temporary() (a read deadline, ETIMEDOUT)
+	K          int
+	push       bool
+	builtin    bool
+	unblock    bool
+	methods    []string
 }
 
 type mctx struct {
@@ -449,6 +450,9 @@ func (r *srvRun) feedErr(kind string) {
 		err = errClosing
 	default:
 		err = errOther
+		if r.cfg.timeoutErr {
+			err = errTimeout
+		}
 	}
 	r.log.item("env\tfeed\terr\t%s", kind)
 	r.ch.feeds <- feedItem{nil, err}
